@@ -390,6 +390,14 @@ func c17Coercer(c *core.Ctx) {
 
 func c17Sharing(c *core.Ctx) {
 	r := c.R
+	if c.Case%20 == 2 {
+		if sig, det := sameNamedTypesCheck(c.R); sig != "" {
+			c.Violation(sig, det)
+			return
+		}
+		c.Eval(48)
+		c.Count("same_named_destination_type_rounds", 1)
+	}
 	o := gen.DefaultOpts()
 	o.MaxDepth = 2
 	o.CatchPct = 40
